@@ -1081,6 +1081,8 @@ def classify(case):
     return labels, nt
 
 
+from vf.props import c04_fresh as FR  # noqa: E402
+
 SUBCHECKS = [
     SubCheck('eval_fixed', fixed_case(), check_fixed, classify, quick=120, thorough=1200,
              doc='per-RDM evaluations at supplied theta, cov(ddof=0)/n, dof, ceiling on the data'),
@@ -1098,4 +1100,7 @@ SUBCHECKS = [
              quick=48, thorough=480, doc='three bootstraps sharing the same draws, cross-validated'),
     SubCheck('eval_dual_bootstrap_random', random_cv_case(), check_random_cv, classify,
              quick=100, thorough=900, doc='random test sets per bootstrap sample'),
+    SubCheck('rerun_fresh_process', FR.fresh_case(), FR.check_fresh, FR.classify_fresh, quick=6,
+             thorough=64, doc='same seed in two fresh interpreters with different PYTHONHASHSEED: '
+                              'stored arrays bit-identical'),
 ]
